@@ -893,6 +893,8 @@ class Translator:
                 m = len(cells)
                 flat(n['inner'][0], t)
                 cells[m] = -cells[m]
+            elif k == 'UnaryOperator' and n['opcode'] == '+':
+                flat(n['inner'][0], t)
             elif k == 'ImplicitValueInitExpr':
                 for _ in range(self.types.cells(t)):
                     cells.append(0)
